@@ -74,6 +74,18 @@ def run(ctx):
                                    "macro": m["macro"], "truth": m["truth"], "expected": m["expected"], "replay": replay})
     ctx.cov["queries_evaluated"] = nq
     ctx.cov["protocol_variants_seen"] = sorted("%s (macro %s)" % k for k in macro_rows)
+    # every protocol variant of the generated table should have been produced by some family
+    try:
+        import re
+        gen = open(vlib.COQ + "/gen/MacroTable.v").read()
+        table = set(re.findall(r'pv_name := "([^"]*)"; pv_version := "([^"]*)"; pv_abbr := "([^"]*)"', gen))
+        seen = {tuple((k[0].split("/", 2) + ["", ""])[:3]) for k in macro_rows}
+        missing = sorted(table - seen)
+        ctx.cov["protocol_variants_not_produced"] = ["/".join(m) for m in missing]
+        if missing:
+            ctx.note("no generated entry of protocol variant(s) %s: their macro rows are covered by the table theorem only" % missing)
+    except OSError:
+        pass
     for fam, r, replay in ctx.c16_stash[:: max(1, len(ctx.c16_stash) // 4)][:4]:
         ctx.sample({"family": fam, "protocol": r.get("protocol"), "method": r.get("method"), "queries": r.get("queries")})
     # ---- correspondence: the fragment evaluator of Shape/MacroFrag.v against the real kfl.Apply
